@@ -25,6 +25,8 @@ def run(rep, tier, prop="C01", extra_kinds=()):
     common.guarded(rep, P + ".3", tser.rebracing, rep, P + ".3", ix)
     O = get_ord(rep)
     for q in ("program.sympy_to_blackbird", "program.BlackbirdProgram.serialize", "program.list_to_blackbird", "program.numpy_to_blackbird"):
+        if q == "program.list_to_blackbird" and q not in ix.funcs:
+            continue          # no separate list formatter: lists are then written by the argument / option dispatch itself (decided under .1)
         hits = [x for x in O.findings.get(q, []) if x.severity == "sink"]
         for x in hits:
             rep.bad(P + ".3", ix.site(ix.func(q), x.node), "`%s` does not depend on set iteration order" % x.text, "%s; source %s" % (x.sink, x.taint.src), key="ord|" + x.text)
